@@ -487,6 +487,47 @@ def karaBorrow (w : Nat) : Limbs → Bool → Limbs
       let uv := dbl w (x + 2^(2*w) - 1)
       lo w uv :: karaBorrow w xs (hi w uv != 0)
 
+/-- the splitting branch of `eval_multiply_kara_n_by_n_to_2n` (`n > 48`): `a0`, `a1`, `b0`, `b1` are the `nh = n / 2`
+limbs at `a`, `a + nh`, `b`, `b + nh`; `rec` is the routine itself (one level down).  Kept separate so that what the
+branch reads of its operands is explicit: nothing but these four slices. -/
+def karaSplit (w : Nat) (rec : Nat → Limbs → Limbs → Limbs → Limbs → Limbs × Limbs)
+    (n : Nat) (a0 a1 b0 b1 r t : Limbs) : Limbs × Limbs :=
+  let nh := n / 2
+  -- Step 1: a1*b1 -> r2 = r + n,  a0*b0 -> r0 = r,  r[0..2n) -> t0
+  let c1 := rec nh a1 b1 (slice r n (2 * nh)) t
+  let r := splice r n c1.1
+  let c2 := rec nh a0 b0 (slice r 0 (2 * nh)) c1.2
+  let r := splice r 0 c2.1
+  let t := splice c2.2 0 (r.take (2 * n))
+  -- Step 2: r1 += t2 ; r1 += t0   (r1 = r + nh, n limbs; carries go into r3 = r + n + nh, nh limbs)
+  let s := addN w (slice r nh n) (slice t n n) 0
+  let r := splice r nh s.1
+  let r := splice r (n + nh) (karaCarry w (slice r (n + nh) nh) s.2)
+  let s := addN w (slice r nh n) (slice t 0 n) 0
+  let r := splice r nh s.1
+  let r := splice r (n + nh) (karaCarry w (slice r (n + nh) nh) s.2)
+  -- Step 3: |a1-a0| -> t0 (left untouched when equal)
+  let ca := cmpRanges a1 a0
+  let t := if ca = 1 then splice t 0 (subN w a1 a0 false).1
+           else if ca = -1 then splice t 0 (subN w a0 a1 false).1 else t
+  -- Step 4: |b0-b1| -> t1 = t + nh
+  let cb := cmpRanges b0 b1
+  let t := if cb = 1 then splice t nh (subN w b0 b1 false).1
+           else if cb = -1 then splice t nh (subN w b1 b0 false).1 else t
+  -- Step 5: t0*t1 -> t2 = t + n, scratch t4 = t + 2n
+  let c3 := rec nh (slice t 0 nh) (slice t nh nh) (slice t n (2 * nh)) (t.drop (2 * n))
+  let t := (splice t n c3.1).take (2 * n) ++ c3.2
+  -- Step 6: r1 ±= t2 (n limbs)
+  if ca * cb = 1 then
+    let s := addN w (slice r nh n) (slice t n n) 0
+    let r := splice r nh s.1
+    (splice r (n + nh) (karaCarry w (slice r (n + nh) nh) s.2), t)
+  else if ca * cb = -1 then
+    let s := subN w (slice r nh n) (slice t n n) false
+    let r := splice r nh s.1
+    (splice r (n + nh) (karaBorrow w (slice r (n + nh) nh) s.2), t)
+  else (r, t)
+
 /-- `eval_multiply_kara_n_by_n_to_2n(r, a, b, n, t)`.  `a`, `b`: the `n` limbs at the operand pointers;
 `r`: the `2n` limbs at the result pointer (contents on entry); `t`: the scratch storage from pointer `t`
 to its end.  Returns the contents of `r` and `t` on exit.  The first argument is recursion fuel (`≥ log₂ n`). -/
@@ -496,44 +537,7 @@ def kara (w : Nat) : Nat → Nat → Limbs → Limbs → Limbs → Limbs → Lim
     if n ≤ karaCutoff then (splice r 0 (mul2n w (a.take n) (b.take n)), t)
     else
       let nh := n / 2
-      let a0 := slice a 0 nh
-      let a1 := slice a nh nh
-      let b0 := slice b 0 nh
-      let b1 := slice b nh nh
-      -- Step 1: a1*b1 -> r2 = r + n,  a0*b0 -> r0 = r,  r[0..2n) -> t0
-      let c1 := kara w fuel nh a1 b1 (slice r n (2 * nh)) t
-      let r := splice r n c1.1
-      let c2 := kara w fuel nh a0 b0 (slice r 0 (2 * nh)) c1.2
-      let r := splice r 0 c2.1
-      let t := splice c2.2 0 (r.take (2 * n))
-      -- Step 2: r1 += t2 ; r1 += t0   (r1 = r + nh, n limbs; carries go into r3 = r + n + nh, nh limbs)
-      let s := addN w (slice r nh n) (slice t n n) 0
-      let r := splice r nh s.1
-      let r := splice r (n + nh) (karaCarry w (slice r (n + nh) nh) s.2)
-      let s := addN w (slice r nh n) (slice t 0 n) 0
-      let r := splice r nh s.1
-      let r := splice r (n + nh) (karaCarry w (slice r (n + nh) nh) s.2)
-      -- Step 3: |a1-a0| -> t0 (left untouched when equal)
-      let ca := cmpRanges a1 a0
-      let t := if ca = 1 then splice t 0 (subN w a1 a0 false).1
-               else if ca = -1 then splice t 0 (subN w a0 a1 false).1 else t
-      -- Step 4: |b0-b1| -> t1 = t + nh
-      let cb := cmpRanges b0 b1
-      let t := if cb = 1 then splice t nh (subN w b0 b1 false).1
-               else if cb = -1 then splice t nh (subN w b1 b0 false).1 else t
-      -- Step 5: t0*t1 -> t2 = t + n, scratch t4 = t + 2n
-      let c3 := kara w fuel nh (slice t 0 nh) (slice t nh nh) (slice t n (2 * nh)) (t.drop (2 * n))
-      let t := (splice t n c3.1).take (2 * n) ++ c3.2
-      -- Step 6: r1 ±= t2 (n limbs)
-      if ca * cb = 1 then
-        let s := addN w (slice r nh n) (slice t n n) 0
-        let r := splice r nh s.1
-        (splice r (n + nh) (karaCarry w (slice r (n + nh) nh) s.2), t)
-      else if ca * cb = -1 then
-        let s := subN w (slice r nh n) (slice t n n) false
-        let r := splice r nh s.1
-        (splice r (n + nh) (karaBorrow w (slice r (n + nh) nh) s.2), t)
-      else (r, t)
+      karaSplit w (kara w fuel) n (slice a 0 nh) (slice a nh nh) (slice b 0 nh) (slice b nh nh) r t
 
 /-- the Karatsuba overload of `eval_mul_unary`: `init` = the contents the two local arrays `result`
 (2n limbs) and `t` (4n limbs) happen to have (the code does not initialise them); the low `n` limbs
